@@ -25,6 +25,7 @@ import (
 	"math"
 	"regexp"
 	"sort"
+	"strings"
 
 	"github.com/lindb/roaring"
 
@@ -257,8 +258,9 @@ func (m *mergedIterator) initQueue() {
 	for _, it := range m.its {
 		if it.Valid() {
 			m.pq = append(m.pq, &item{
-				it:    it,
-				key:   it.Key(),
+				it: it,
+				// NOTE: must copy the key, it's the iterator's internal buffer which is overwritten by Next().
+				key:   append([]byte(nil), it.Key()...),
 				index: i,
 			})
 			it.Next()
@@ -284,7 +286,7 @@ func (m *mergedIterator) HasNext() bool {
 		// if it has value, push back queue and adjust priority
 		it := item.it
 		if it.Valid() {
-			item.key = it.Key()
+			item.key = append(item.key[:0], it.Key()...)
 			m.pq.Push(item)
 			m.pq.update(item)
 
